@@ -41,6 +41,12 @@ def gen_case(seed, n, tier="quick"):
     h["accept_fault_rate"] = r.choice([0.0, 0.05, 0.15])
     h["txs"] = [gen_tx(r, h, k) for k in range(h["ntx"])]
     h["accept_seed"] = r.randrange(1 << 30)
+    # the origin reads a request that arrived on a REUSED persistent connection and closes without a byte (the idle-pconn
+    # race: squid must retry safe requests on another connection, and fail the others cleanly)
+    r1 = random.Random(f"C08:reuse:{seed}:{n}")
+    rate = r1.choice([0.0, 0.15, 0.4])
+    for t in h["txs"]:
+        t["reuse_close"] = r1.random() < rate
     return h
 
 
@@ -104,6 +110,9 @@ def run_config(a, res, cfg, histories):
         if t is None:
             return Resp(200, [("Cache-Control", "no-store")], length=20)
         b = t["origin"]
+        if t.get("reuse_close") and getattr(req, "seq_on_conn", 0) >= 1:
+            res.count("origin_closed_reused_pconn_without_reply")
+            return None
         hs = [("Cache-Control", "max-age=600")] if path.startswith("/c/") else []
         res.count("origin_behaviour:" + b)
         if b == "never_answer":
